@@ -121,11 +121,15 @@ def main():
                 if "prop" in custom:
                     p.add_propagator(([0, 1], custom["prop"], []))
                 kw = {}
-                if custom.get("dom_h"):
+                if not op.get("with_heuristics", True):
+                    pass
+                elif custom.get("dom_h") or custom.get("var_h") or custom.get("cons"):
+                    pass
+                if op.get("with_heuristics", True) and custom.get("dom_h"):
                     kw["dom_heuristic_idx"] = custom["dom_h"][-1]
-                if custom.get("var_h"):
+                if op.get("with_heuristics", True) and custom.get("var_h"):
                     kw["var_heuristic_idx"] = custom["var_h"][-1]
-                if custom.get("cons"):
+                if op.get("with_heuristics", True) and custom.get("cons"):
                     kw["consistency_alg_idx"] = custom["cons"][-1]
                 s = BacktrackSolver(p, log_level="ERROR", **kw)
                 obs = {"solutions": [sol(x) for x in s.find_all()], "stats": stats(s), "registered": sorted(custom)}
